@@ -421,6 +421,10 @@ class MetadorGroup(MetadorNode):
     def __iter__(self):
         return iter(self.keys())
 
+    def __reversed__(self):
+        # NOTE: without this, reversed() is answered by the raw group (incl. metador_*)
+        return reversed(list(self.keys()))
+
     def __len__(self):
         return len(list(self.keys()))
 
